@@ -38,10 +38,12 @@ def Kind.intOk : Kind → Bool
   | .int => true
   | _ => false
 
-/-- `str.isdigit(x[0]) or x[0] in '+-'` — the numeric test of `Command._parse_line` -/
-def Kind.cmdNumeric : Kind → Bool
+/-- the numeric test of `Command._parse_line`: first character a digit or a sign — and, when the
+    regenerated flag `dot` says so, a decimal point -/
+def Kind.cmdNumeric (dot : Bool) : Kind → Bool
   | .int | .num | .big | .sym => true
-  | _ => false
+  | .dnum => dot
+  | .word => false
 
 /-- `'.' in token` (used by `is_atom` on the second column) -/
 def Kind.hasDot : Kind → Bool
@@ -65,8 +67,10 @@ inductive Cond
   | wEq (n : Nat) | wNe (n : Nat) | wGt (n : Nat) | wLt (n : Nat) | wGe (n : Nat) | wLe (n : Nat)   -- len(words) ? n
   | modeIn (ms : List Mode)
   | lastEq (kw : String) | lastNe (kw : String)       -- lastcard == / != kw
+  | lastIn (kws : List String) | lastNotIn (kws : List String)
   | flagOn (f : String) | flagOff (f : String)         -- truthiness of a parser attribute (self.frag, self.end, …)
-  | caught (k : Nat) | notCaught (k : Nat)             -- inside the handler of try #k / later in the body of try #k
+  | caught (k : Nat) (es : List Err)                   -- inside the handler of try #k for the classes `es`
+  | notCaught (k : Nat)                                -- later in the body of try #k / after it without exception
   | restAlpha (a : Nat) | restNotAlpha (a : Nat)       -- ''.join(spline[a:]).isalpha()
   | opaque (txt : String)                              -- a test the translator does not interpret
   deriving DecidableEq, Repr
@@ -124,6 +128,8 @@ structure Tables where
   dispatch : List Branch
   cards : List CardReq
   atomMinCols : Nat
+  dotNumeric : Bool := false         -- Command._parse_line takes `.5` for a number
+  atomRejectsBig : Bool := true      -- is_atom refuses a line with a raw coordinate above 4.0
   assumedFalse : List String := []   -- opaque tests that valid input never triggers (spec side, see `assumed`)
   deriving Repr
 
@@ -133,10 +139,11 @@ structure St where
   s : List Kind              -- kinds of spline (index 0 = the keyword itself)
   np : Nat := 0
   nw : Nat := 0
-  caught : List Nat := []
+  caught : List (Nat × Err) := []
   last : String := ""        -- lastcard
   flags : List String := []  -- parser attributes that are truthy
   stopped : Bool := false
+  dot : Bool := false        -- copy of `Tables.dotNumeric`
   deriving DecidableEq, Repr
 
 def Cond.eval (assumedFalse : List String) (m : Mode) (st : St) : Cond → Bool
@@ -148,19 +155,20 @@ def Cond.eval (assumedFalse : List String) (m : Mode) (st : St) : Cond → Bool
   | .wLt n => st.nw < n | .wGe n => st.nw ≥ n | .wLe n => st.nw ≤ n
   | .modeIn ms => ms.contains m
   | .lastEq k => st.last == k | .lastNe k => st.last != k
+  | .lastIn ks => ks.contains st.last | .lastNotIn ks => !ks.contains st.last
   | .flagOn f => st.flags.contains f | .flagOff f => !st.flags.contains f
-  | .caught k => st.caught.contains k | .notCaught k => !st.caught.contains k
+  | .caught k es => st.caught.any (fun p => p.1 == k && es.contains p.2) | .notCaught k => !st.caught.any (fun p => p.1 == k)
   | .restAlpha a => (st.s.drop a).all (· == .word) | .restNotAlpha a => !(st.s.drop a).all (· == .word)
   | .opaque t => !assumedFalse.contains t
 
 def allFloat (l : List Kind) : Bool := l.all Kind.floatOk
 
 /-- `Command._parse_line`: a token whose first character is a digit or sign goes through `float()`/`int()` -/
-def parseCmdOk (intnums : Bool) (l : List Kind) : Bool :=
-  l.all fun k => !k.cmdNumeric || (if intnums then k.intOk else k.floatOk)
+def parseCmdOk (dot intnums : Bool) (l : List Kind) : Bool :=
+  l.all fun k => !k.cmdNumeric dot || (if intnums then k.intOk else k.floatOk)
 
-def countP (restr : Bool) (l : List Kind) : Nat :=
-  (l.filter fun k => if restr then k.floatOk else k.cmdNumeric).length
+def countP (dot restr : Bool) (l : List Kind) : Nat :=
+  (l.filter fun k => if restr then k.floatOk else k.cmdNumeric dot).length
 
 /-- the acts that need no table -/
 def execBasic (st : St) : Act → Except Err St
@@ -180,13 +188,13 @@ def execBasic (st : St) : Act → Except Err St
   | .intNonWord a => if (st.s.drop a).all (fun k => k == .word || k.intOk) then .ok st else .error .ValueError
   | .unpackP n => if st.np == n then .ok st else .error .ValueError
   | .parseCmd i =>
-      if parseCmdOk i (st.s.drop 1) then
-        .ok { st with np := countP false (st.s.drop 1), nw := (st.s.drop 1).length - countP false (st.s.drop 1) }
+      if parseCmdOk st.dot i (st.s.drop 1) then
+        .ok { st with np := countP st.dot false (st.s.drop 1), nw := (st.s.drop 1).length - countP st.dot false (st.s.drop 1) }
       else .error .ValueError
   | .parseRestr =>
       match st.s with
       | [] => .error .IndexError
-      | _ :: r => .ok { st with np := countP true r, nw := r.length - countP true r }
+      | _ :: r => .ok { st with np := countP st.dot true r, nw := r.length - countP st.dot true r }
   | .card _ => .error .Other          -- resolved by `exec`
   | .raise e => .error e
   | .stop => .ok { st with stopped := true }
@@ -200,7 +208,7 @@ def stepWith (ex : St → Act → Except Err St) (af : List String) (m : Mode) (
   else if sp.conds.all (Cond.eval af m st) then
     match ex st sp.act with
     | .ok st' => .ok st'
-    | .error e => if sp.catches.contains e then .ok { st with caught := sp.tid :: st.caught } else .error e
+    | .error e => if sp.catches.contains e then .ok { st with caught := (sp.tid, e) :: st.caught } else .error e
   else .ok st
 
 def runWith (ex : St → Act → Except Err St) (af : List String) (m : Mode) : St → List Step → Except Err St
@@ -248,7 +256,7 @@ def Form.isAtomName (T : Tables) (f : Form) : Bool := !T.shxCards.contains f.wor
 def lineIsAtom (T : Tables) (f : Form) : Bool :=
   f.isAtomName T && f.spline.length ≥ T.atomMinCols &&
     (match f.spline[1]? with | some k => !k.hasDot | none => false) &&
-    !((f.spline.take 5).drop 2).any (· == .big)
+    !(T.atomRejectsBig && ((f.spline.take 5).drop 2).any (· == .big))
 
 def Test.holds (T : Tables) (f : Form) : Test → Bool
   | .wordEq k => f.word == k
@@ -270,7 +278,7 @@ def stepLine (T : Tables) (m : Mode) (c : Ctx) (f : Form) : Except Err Ctx :=
   match selectBranch T f with
   | none => .ok c
   | some b =>
-    match runSteps T m { s := f.spline, last := c.last, flags := c.flags } b.steps with
+    match runSteps T m { s := f.spline, last := c.last, flags := c.flags, dot := T.dotNumeric } b.steps with
     | .ok st => .ok { last := st.last, flags := st.flags }
     | .error e => .error e
 
@@ -321,7 +329,7 @@ open Kind in
 def syntaxTable : List Syn := [
   -- header objects
   { kw := "TITL", slot := .titl, tails := [[], [word], [word, word, int, sym]] },
-  { kw := "CELL", slot := .cell, mand := [num, num, num, num, num, num, num] },
+  { kw := "CELL", slot := .cell, mand := [num, big, big, big, big, big, big] },
   { kw := "ZERR", slot := .zerr, mand := [num, num, num, num, num, num, num], alts := [[int, num, num, num, num, num, num]] },
   { kw := "LATT", slot := .latt, opts := [[int]] },
   { kw := "SYMM", slot := .symm, mand := [sym, sym, sym], alts := [[sym], [sym, word, sym], [word, sym, word]] },
